@@ -70,11 +70,13 @@ inductive Tmpl where
   | node (l : Label) (kids : List Tmpl)
   | choice (tag : Nat) (one : Bool) (k : Nat) (cands : List Tmpl) (distinct sorted : Bool)
   | floatv (tag : Nat) (lo hi : Num)
+  | custom (tag : Nat) (cid : Nat)     -- `CustomHyper` subclass / `pg.evolve` value number `cid`
   deriving Repr
 
 inductive DVal where
   | idx (i : Nat)
   | flt (x : Num)
+  | str (s : String)                   -- user-defined genome of a custom decision point
   deriving DecidableEq, Repr
 
 /-- Raw DNA trees. Python's `DNA(value, children)` is `DNA.norm value children`. -/
@@ -100,7 +102,22 @@ inductive GSpec where
   | space (elems : List GSpec)
   | choices (k : Nat) (cands : List GSpec) (distinct sorted : Bool)
   | float (lo hi : Num)
+  | custom (cid : Nat)                 -- `geno.CustomDecisionPoint`
   deriving Repr
+
+/-- Everything a template is interpreted under: the `where` filter (a predicate on placeholder
+tags) and the *user hooks* of custom hyper primitives, which are parameters of the model:
+`dec cid` is `custom_decode` of hook class `cid` (it receives the whole DNA; `none` = it raises),
+`enc cid` is `custom_encode`, `dom cid` the genomes the hooks call their own (what `first_dna` /
+`next_dna` / `random_dna` / mutation produce). Their contract is an explicit hypothesis of the
+theorems (`HooksLawful` in PgModel/HyperSpec.lean); nothing is assumed about them here. -/
+structure Cfg where
+  sel : Nat → Bool
+  dec : Nat → DNA → Option Tmpl
+  enc : Nat → Tmpl → Option DNA
+  dom : Nat → DNA → Bool
+
+instance : CoeFun Cfg (fun _ => Nat → Bool) := ⟨Cfg.sel⟩
 
 def GSpec.isConstSpace : GSpec → Bool
   | .space [] => true
@@ -158,6 +175,12 @@ def validSub (cv : List (Bool × (DNA → Bool))) (checkConst : Bool) : DNA → 
       (!checkConst || (if isConst then cs.isEmpty else !cs.isEmpty)) && f (DNA.norm none cs)
   | _ => false
 
+section
+/- `dom`: which genomes of custom decision point `cid` are admitted. `fun _ _ => true` is exactly
+`DNASpec.validate` (a custom decision point accepts every str-valued DNA, geno/custom.py:120-125);
+`W.dom` restricts custom genomes to the range of the user hooks. -/
+variable (dom : Nat → DNA → Bool)
+
 mutual
   /-- `spec.validate(dna)` does not raise. -/
   def validG : GSpec → DNA → Bool
@@ -178,6 +201,10 @@ mutual
       match d with
       | .mk (some (.flt x)) [] => Num.le lo x && Num.le x hi
       | _ => false
+    | .custom cid, d =>
+      match d.value with
+      | some (.str _) => dom cid d
+      | _ => false
   def validL : List GSpec → List DNA → Bool
     | [], [] => true
     | g :: gs, d :: ds => validG g d && validL gs ds
@@ -185,6 +212,8 @@ mutual
   def candV : List GSpec → List (Bool × (DNA → Bool))
     | [] => []
     | c :: cs => (c.isConstSpace, fun d => validG c d) :: candV cs
+end
+
 end
 
 /-! ### Enumeration and size of finite spaces (what `pg.iter` sweeps) -/
@@ -229,6 +258,7 @@ mutual
     | .choices k cands distinct sorted =>
       (enumMulti (enumL cands) distinct sorted k []).map fun ds => DNA.norm none ds
     | .float _ _ => []
+    | .custom _ => []
   def enumL : List GSpec → List (List DNA)
     | [] => []
     | g :: gs => enumG g :: enumL gs
@@ -247,6 +277,7 @@ mutual
     | .space elems => (optAll (sizeL elems)).map fun ss => ss.foldr (· * ·) 1
     | .choices k cands distinct sorted => (optAll (sizeL cands)).map fun ss => msize ss distinct sorted k []
     | .float _ _ => none
+    | .custom _ => none
   def sizeL : List GSpec → List (Option Nat)
     | [] => []
     | g :: gs => sizeG g :: sizeL gs
@@ -255,7 +286,7 @@ end
 /-! ### Templates -/
 
 section
-variable (W : Nat → Bool)
+variable (W : Cfg)
 
 mutual
   /-- `_parse_generators` + `dna_spec`: the specs of the *active* top-level placeholders in
@@ -267,6 +298,7 @@ mutual
     | .choice tag _ k cands distinct sorted =>
       if W tag then [.choices k (candSpecs cands) distinct sorted] else specL cands
     | .floatv tag lo hi => if W tag then [.float lo hi] else []
+    | .custom tag cid => if W tag then [.custom cid] else []
   def specL : List Tmpl → List GSpec
     | [] => []
     | t :: ts => specT t ++ specL ts
@@ -345,6 +377,19 @@ mutual
           | some (.flt x) => if Num.le lo x && Num.le x hi then .ok (.const (.flt x), rest) else .error .value
           | _ => .error .value
       else .ok (.floatv tag lo hi, ds)
+    | .custom tag cid, ds =>
+      -- `CustomHyper._decode` (custom.py): str-valued DNA, then the user's `custom_decode(dna)`
+      if W tag then
+        match ds with
+        | [] => .error .other
+        | d :: rest =>
+          match d.value with
+          | some (.str _) =>
+            (match W.dec cid d with
+             | some v => .ok (v, rest)
+             | none => .error .value)
+          | _ => .error .value
+      else .ok (.custom tag cid, ds)
   def goL : List Tmpl → List DNA → Except Err (List Tmpl × List DNA)
     | [], ds => .ok ([], ds)
     | t :: ts, ds =>
@@ -440,6 +485,16 @@ mutual
       else
         match v with
         | .floatv tag' lo' hi' => if tag = tag' ∧ lo = lo' ∧ hi = hi' then .ok [] else .error .value
+        | _ => .error .value
+    | .custom tag cid, v =>
+      -- `CustomHyper.encode` = the user's `custom_encode(value)`
+      if W tag then
+        match W.enc cid v with
+        | some d => .ok [d]
+        | none => .error .value
+      else
+        match v with
+        | .custom tag' cid' => if tag = tag' ∧ cid = cid' then .ok [] else .error .value
         | _ => .error .value
   def egoL : List Tmpl → List Tmpl → Except Err (List DNA)
     | [], vs => match vs with
